@@ -19,6 +19,7 @@ use std::{io, path};
 use async_trait::async_trait;
 use bytes::Bytes;
 use tempfile::TempDir;
+use tokio::io::AsyncWriteExt;
 use tokio::sync::Semaphore;
 use tracing::{error, trace, warn};
 use url::Url;
@@ -100,8 +101,34 @@ impl super::Protocol for Protocol {
                 options.create(true).truncate(true);
             }
         }
-        if let Err(err) = tokio::fs::write(&full_path, content).await {
+        let mut file = match options.open(&full_path).await {
+            Ok(file) => file,
+            Err(err)
+                if write_mode == WriteMode::CreateNew
+                    && err.kind() == io::ErrorKind::AlreadyExists
+                    && is_empty_file(&full_path).await =>
+            {
+                // An interrupted write can leave an empty file behind. It holds no
+                // content, so completing it does not overwrite anything.
+                tokio::fs::OpenOptions::new()
+                    .write(true)
+                    .open(&full_path)
+                    .await
+                    .map_err(|err| super::Error::io_error(&full_path, err))?
+            }
+            Err(err) => {
+                error!("Failed to create {full_path:?}: {err:?}");
+                return Err(super::Error::io_error(&full_path, err));
+            }
+        };
+        let written = match file.write_all(content).await {
+            Ok(()) => file.flush().await,
+            Err(err) => Err(err),
+        };
+        if let Err(err) = written {
             error!("Failed to write {full_path:?}: {err:?}");
+            drop(file);
+            // The file was created, or was empty, in this call, so removing it loses nothing.
             if let Err(err2) = tokio::fs::remove_file(&full_path).await {
                 error!("Failed to remove {full_path:?}: {err2:?}");
             }
@@ -180,6 +207,13 @@ impl super::Protocol for Protocol {
     fn local_path(&self) -> Option<PathBuf> {
         Some(self.path.clone())
     }
+}
+
+/// True if `path` is a regular file of length zero.
+async fn is_empty_file(path: &Path) -> bool {
+    tokio::fs::metadata(path)
+        .await
+        .is_ok_and(|m| m.is_file() && m.len() == 0)
 }
 
 async fn collect_tokio_dir_entry(dir_entry: tokio::fs::DirEntry) -> Option<DirEntry> {
